@@ -1935,3 +1935,129 @@ mut("c12-purge-queries-of-finished-batch", ["C12"], [("query/workmanager.go", ''
 					}
 				}
 				log.Warnf("Query(%d) result from peer %v "+''')], ["C12.V3"])
+
+# ---- rules added after seed batch 9 ----
+mut("c01-ancestor-height-clamped", ["C01"], [(BM, "	ancestorHeight := l.height - distance\n", "	ancestorHeight := max(l.height-distance, 0)\n")], ["C01.V6"])
+mut("c01-ancestor-ctx-own-height", ["C01"], [(BM, '''	ancestorCtx := newLightHeaderCtx(
+		ancestorHeight, ancestor, l.store, l.headerList,
+	)''', '''	ancestorCtx := newLightHeaderCtx(
+		l.height, ancestor, l.store, l.headerList,
+	)''')], ["C01.V6"])
+mut("c01-lightctx-bits-of-parent", ["C01"], [(BM, "		timestamp:  header.Timestamp.Unix(),\n", "		timestamp:  header.Timestamp.Unix() + 1,\n")], ["C01.V6"])
+mut("c01-list-ancestor-nearest", ["C01"], [("headerlist/header_list.go", "	for n != nil && n.Height != height {", "	for n != nil && n.Height > height+1 {")], ["C01.V7"])
+_MISLOOP = '''	for i := 0; i < numHeaders; i++ {
+		if checkForCFHeaderMismatch(headers, i) {
+			targetHeight := startHeight + uint32(i)
+
+			badPeers, err := b.detectBadPeers(
+				headers, targetHeight, uint32(i), fType,
+			)
+			if err != nil {
+				return err
+			}
+'''
+mut("c03-mismatch-loop-short", ["C03", "C13"], [(BM, _MISLOOP, _MISLOOP.replace("i < numHeaders;", "i < numHeaders-1;"))], ["C03.V5", "C13.V1"])
+mut("c03-mismatch-loop-first-only", ["C03", "C13"], [(BM, '''				if err != nil {
+					log.Errorf("Unable to ban peer %v: %v",
+						peer, err)
+				}
+				delete(headers, peer)
+			}
+		}
+	}
+
+	// Get the longest filter hash chain and write it to the store.''', '''				if err != nil {
+					log.Errorf("Unable to ban peer %v: %v",
+						peer, err)
+				}
+				delete(headers, peer)
+			}
+			break
+		}
+	}
+
+	// Get the longest filter hash chain and write it to the store.''')], ["C03.V5", "C13.V1"])
+mut("c12-rearm-on-any-message", ["C12", "C06"], [("query/worker.go", '''					if progress.Progressed {
+						timeout.Stop()''', '''					if progress.Progressed || !progress.Finished {
+						timeout.Stop()''')], ["C12.G2", "C06.O3"])
+mut("c07-root-probe-prefiltered", ["C07"], [("headerfs/index.go", '''	// Group hashes by their sub-bucket for more efficient deletion.
+	bySubBucket := make(map[string][]*chainhash.Hash)''', '''	first := headerHashes[0]
+	legacy := len(rootBucket.Get(first[:])) == 4
+
+	// Group hashes by their sub-bucket for more efficient deletion.
+	bySubBucket := make(map[string][]*chainhash.Hash)'''), ("headerfs/index.go", "		if len(rootBucket.Get(hashBytes)) == 4 {\n			rootBucketHashes", "		if legacy && len(rootBucket.Get(hashBytes)) == 4 {\n			rootBucketHashes")], ["C07.V3"])
+mut("c09-scanning-from-parent-timestamp", ["C09"], [("rescan.go", "		rs.scanning = ro.startTime.Before(header.Timestamp)\n", "		rs.scanning = ro.startTime.Before(rs.curHeader.Timestamp)\n")], ["C09.V4"])
+mut("c09-scanning-before-curheader-moves", ["C09"], [("rescan.go", '''			rs.curHeader = *header
+			rs.curStamp.Height++
+			rs.curStamp.Hash = header.BlockHash()
+
+			if !rs.scanning {
+				rs.scanning = ro.startTime.Before(
+					rs.curHeader.Timestamp,
+				)
+			}
+''', '''			if !rs.scanning {
+				rs.scanning = ro.startTime.Before(
+					rs.curHeader.Timestamp,
+				)
+			}
+
+			rs.curHeader = *header
+			rs.curStamp.Height++
+			rs.curStamp.Hash = header.BlockHash()
+''')], ["C09.V4"])
+mut("c10-enqueue-shares-pending", ["C10"], [("utxoscanner.go", '''	// Insert the request into the queue and signal any threads that might be
+	// waiting for new elements.
+	heap.Push(&s.pq, req)
+''', '''	for _, pending := range s.pq {
+		if pending.BirthHeight == birthHeight && pending.Input.OutPoint == input.OutPoint {
+			s.cv.L.Unlock()
+			return pending, nil
+		}
+	}
+
+	// Insert the request into the queue and signal any threads that might be
+	// waiting for new elements.
+	heap.Push(&s.pq, req)
+''')], ["C10.V4"])
+mut("c11-events-under-tip-mutex", ["C11", "C17"], [(BM, '''	b.filterHeaderTip = lastHeight
+	b.filterHeaderTipHash = lastHash
+	b.newFilterHeadersMtx.Unlock()
+	b.newFilterHeadersSignal.Broadcast()
+''', '''	defer b.newFilterHeadersSignal.Broadcast()
+	defer b.newFilterHeadersMtx.Unlock()
+	b.filterHeaderTip = lastHeight
+	b.filterHeaderTipHash = lastHash
+''')], ["C11.P1", "C17.P2"])
+mut("c12-idle-timer-reset-in-place", ["C12"], [("query/workmanager.go", '''		if b.progressTimer != nil {
+			b.progressTimer.Stop()
+		}
+		b.progressGen++
+''', '''		b.progressGen++
+		if b.progressTimer != nil {
+			b.progressTimer.Reset(b.progressTimeout)
+			return
+		}
+''')], ["C12.O5"])
+mut("c17-subscribe-failure-retried", ["C17"], [("rescan.go", '''				if err != nil {
+					return fmt.Errorf("unable to register "+
+						"block subscription: %v", err)
+				}
+''', '''				if err != nil {
+					log.Debugf("unable to register block "+
+						"subscription: %v", err)
+					select {
+					case <-time.After(blockRetryInterval):
+					case <-ro.quit:
+						return ErrRescanExit
+					}
+					continue rescanLoop
+				}
+''')], ["C17.O4"])
+mut("quiet-scanning-guarded-true", ["C09"], [("rescan.go", '''	if !rs.scanning {
+		rs.scanning = ro.startTime.Before(header.Timestamp)
+	}
+''', '''	if !rs.scanning && ro.startTime.Before(header.Timestamp) {
+		rs.scanning = true
+	}
+''')], [])
